@@ -12,6 +12,11 @@
           | c dt_ns n { cluster m name_index*m }*n          a whole refresh cycle: sendClusterRequest, the cluster list,
                                                             then one group list per (distinct) cluster
                                                             -> HClusters; HRefresh for each distinct cluster (first entry wins)
+          | s dt_ns n cluster*n                             a refresh cycle whose storage requests time out (nobody takes
+                                                            them off the storage channel within a second): n = -1 - the
+                                                            cluster-list request, nothing happens -> no event;
+                                                            n >= 0 - the cluster list is answered, every group-list
+                                                            request times out -> HClusters alone
    (hist = current code, hist0 = behaviour before the F3 fix; `d` = option left unset, i.e. Configure's default)
 
    output line:
@@ -86,6 +91,14 @@ let hist (fixed : bool) t : string =
           | [] -> []
           | (c, gs) :: r -> if List.mem (iz c) seen then dedup seen r else (c, gs) :: dedup (iz c :: seen) r in
         HClusters (now, List.map fst entries) :: List.map (fun (c, gs) -> HRefresh (now, c, gs)) (dedup [] entries)
+    | "s" ->
+        let now = tick () in
+        let n = next_int t in
+        if n < 0 then []
+        else begin
+          let cs = rep n (fun () -> let c = next_z t in see c; c) in
+          [ HClusters (now, cs) ]
+        end
     | k -> failwith ("drv_notifier: unknown step kind " ^ k)) in
   let st = ref c_init in
   let outs = List.map (fun evs ->
